@@ -976,6 +976,33 @@ def decide_divisor(F, fn, bb, t, wrapper, ap, idx, both_zeros=False):
     res, matched = k2.cut_gate(fn, [bb], acc)
     if matched and res[bb]:
         return ("D0", "behind an exact zero test of the divisor")
+    # 3. the test has been taken out into a private helper (`check(unit)?`): the same question on the normalised function, where
+    #    the helper's body is in place and its Err returns are known not to continue (inliner.thread_try)
+    if not both_zeros and "{closure" not in fn.path and not getattr(fn, "inlined_ids", None):
+        nf = F.inlined(fn, keep=("Option::<T>", "Result::<T, E>", "Iterator", "bool>::then"))
+        if nf is not fn and bb < len(nf.blocks) and nf.blocks[bb]["term"] and nf.blocks[bb]["term"].get("k") == "call" \
+                and nf.blocks[bb]["term"].get("callee", {}).get("path") == t["callee"]["path"]:
+            base = fn.apath(t["args"][idx])
+            extra = tuple(ap[1][len(base[1]):]) if ap[0] == base[0] and tuple(ap[1][:len(base[1])]) == tuple(base[1]) else None
+            if extra is not None:
+                nb = nf.apath(nf.blocks[bb]["term"]["args"][idx])
+                ap_n = (nb[0], tuple(nb[1]) + extra)
+                fz_n = fz
+
+                def acc_n(kind, gap, info):
+                    if kind != "bool":
+                        return None
+                    r = gap[0]
+                    if r[0] == "call" and r[1] in ("<types::numeric::Numeric as core::cmp::PartialEq>::eq", "<types::numeric::Numeric as core::cmp::PartialEq>::ne"):
+                        args = r[2]
+                        zero = [a for a in args if a[0][0] == "call" and a[0][1].endswith(("::zero",))]
+                        other = [a for a in args if a not in zero]
+                        if zero and other and same_value(other[0], ap_n):
+                            return {"false"} if r[1].endswith("::eq") else {"true"}
+                    return None
+                res, matched = k2.cut_gate(nf, [bb], acc_n)
+                if matched and res[bb]:
+                    return ("D0", "behind an exact zero test of the divisor in a private helper whose refusal ends the function (`check(..)?`)")
     return None
 
 
